@@ -209,3 +209,58 @@ func Run(workerTest string, lo, hi, batch int, stall time.Duration, extraEnv []s
 	}
 	return res
 }
+
+// RunRace re-executes the test binary (which must have been built with -race)
+// for the given test function and reports whether the Go race detector fired.
+// A free-running pass like this SAMPLES schedules; it complements the
+// exhaustive checks by looking for unsynchronised accesses.
+func RunRace(testName string, timeout time.Duration) (raced bool, report string, err error) {
+	dir := os.Getenv("VERIF_TMP")
+	if dir == "" {
+		dir = os.TempDir()
+	}
+	cwd, _ := os.MkdirTemp(dir, "vrace")
+	defer os.RemoveAll(cwd)
+	cmd := exec.Command(os.Args[0], "-test.run", "^"+testName+"$", "-test.timeout", "0")
+	cmd.Dir = cwd
+	env := []string{"VERIF_RACE_BODY=1", "GORACE=exitcode=66 halt_on_error=1", "VERIF_TMP=" + cwd}
+	for _, e := range os.Environ() {
+		if strings.HasPrefix(e, "VERIF_OUT=") || strings.HasPrefix(e, "GORACE=") || strings.HasPrefix(e, "VERIF_TMP=") {
+			continue
+		}
+		env = append(env, e)
+	}
+	cmd.Env = env
+	outf, _ := os.CreateTemp(dir, "vraceout")
+	defer os.Remove(outf.Name())
+	cmd.Stdout, cmd.Stderr = outf, outf
+	if err := cmd.Start(); err != nil {
+		return false, "", err
+	}
+	done := make(chan error, 1)
+	go func() { done <- cmd.Wait() }()
+	var werr error
+	select {
+	case werr = <-done:
+	case <-time.After(timeout):
+		cmd.Process.Kill()
+		<-done
+		return false, "", fmt.Errorf("race body timed out")
+	}
+	b, _ := os.ReadFile(outf.Name())
+	s := string(b)
+	if i := strings.Index(s, "WARNING: DATA RACE"); i >= 0 {
+		rep := s[i:]
+		if len(rep) > 1500 {
+			rep = rep[:1500]
+		}
+		return true, rep, nil
+	}
+	if werr != nil {
+		if len(s) > 1500 {
+			s = s[len(s)-1500:]
+		}
+		return false, s, fmt.Errorf("race body failed without a race report: %v", werr)
+	}
+	return false, "", nil
+}
